@@ -99,6 +99,26 @@ Section Match.
     apply advance_single. eapply start_pair_same_match; eassumption.
   Qed.
 
+  (* ... and so is the whole command line: replacing, at the head of the loop, an abbreviation by the
+     full key (or any two spellings that resolve to the same entry) does not change the result of
+     Parse: values, Called, CalledAs, remaining, error, warnings *)
+  Theorem abbreviation_parse root st0 pre rest st n1 n2 e k oid :
+    run pf md lower ro_on specs (init root st0) pre = Ok st -> ph st = PHead ->
+    n1 <> [] -> n2 <> [] -> contains_byte EQ n1 = false -> contains_byte EQ n2 = false ->
+    starts_with_eq_or_empty e ->
+    matches (n_opts (cur st)) n1 = [(k, oid)] -> matches (n_opts (cur st)) n2 = [(k, oid)] ->
+    parse pf md lower ro_on specs root st0 (pre ++ (DASH :: DASH :: n1 ++ e) :: rest) =
+    parse pf md lower ro_on specs root st0 (pre ++ (DASH :: DASH :: n2 ++ e) :: rest).
+  Proof.
+    intros R P N1 N2 C1 C2 He M1 M2.
+    assert (W : walk pf md lower ro_on specs root st0 (pre ++ (DASH :: DASH :: n1 ++ e) :: rest) =
+                walk pf md lower ro_on specs root st0 (pre ++ (DASH :: DASH :: n2 ++ e) :: rest)).
+    { unfold Parse.walk. rewrite !run_app, R. cbn [bind run].
+      assert (S1 : forall t, step st t = head st t) by (intros t; unfold Parse.step; rewrite P; reflexivity).
+      rewrite !S1. rewrite (head_same_match st n1 n2 e k oid N1 N2 C1 C2 He M1 M2). reflexivity. }
+    unfold Parse.parse. rewrite W. reflexivity.
+  Qed.
+
   (* ---- effect of a matched pair on the store ---- *)
 
   Lemma save_keeps_called sp os a os' :
